@@ -3,15 +3,18 @@
 
   A. receivers on refused / absent headers: nothing released, an error, no key touched;
   B. what a front end makes of header bytes (`FrontEncHeader`, `FrontSigHeader`:
-     `Wire`'s typed view of the generic parse OR go-codec's typed decode of the
-     same bytes, map-shaped and leniently decoded headers included);
+     go-codec's typed decode of the bytes — map-shaped and leniently decoded
+     headers included — OR, only where that is unmodelled, `Wire`'s typed view of
+     the generic parse);
   C. go-codec's typed decode of CANONICAL header bytes of any family
      (`[format name, [major, minor], mode, …]`) returns that mode and version,
      whatever else the header carries and whichever header struct it is decoded
      into (`decEncHeader_tag`, `decSigHeader_tag`) — by an invariant of `structArr`;
   D. transplants: a receiver that released anything or accepted, on ANY byte
      string, read header bytes different from every canonical header announcing
-     another mode / a refused version.
+     another mode / a refused version; and the other way round: behind canonical
+     header bytes of another mode / a refused version NOTHING is accepted, whatever
+     packets follow — exact refusal, nothing released, no key object touched.
 
   Core Lean only.
 -/
@@ -103,14 +106,14 @@ theorem det_verifyDetached_no_header (P : Prims) (valid : Validator) (kr : Keyri
 /-! ## B. what a front end makes of header bytes -/
 
 /-- `h` is what a front end makes of the header bytes `hb` decoded into the
-    encryption-family header struct: the typed view of the generic parse
-    (`Wire`), or go-codec's typed decode (`Codec`: array form, map form keyed by
-    codec names, nil, lenient field encodings) -/
+    encryption-family header struct: go-codec's typed decode (`Codec`: array form,
+    map form keyed by codec names, nil, lenient field encodings), or — the fallback —
+    the typed view of the generic parse (`Wire`) -/
 def FrontEncHeader (hb : Bytes) (h : EncHeader) : Prop :=
-  Wire.decodeHeader viewEncHeader hb = .ok (.ok hb h) ∨ ∃ r, Codec.decEncHeader hb = .ok (h, r)
+  (∃ r, Codec.decEncHeader hb = .ok (h, r)) ∨ Wire.decodeHeader viewEncHeader hb = .ok (.ok hb h)
 
 def FrontSigHeader (hb : Bytes) (h : SigHeader) : Prop :=
-  Wire.decodeHeader viewSigHeader hb = .ok (.ok hb h) ∨ ∃ r, Codec.decSigHeader hb = .ok (h, r)
+  (∃ r, Codec.decSigHeader hb = .ok (h, r)) ∨ Wire.decodeHeader viewSigHeader hb = .ok (.ok hb h)
 
 theorem codec_readHeader_decoded {η : Type} (dec : Dec η) (msg hb rest : Bytes) (h : η)
     (hs : Codec.readHeader dec msg = .ok (.ok hb h, rest)) : ∃ r, dec hb = .ok (h, r) := by
@@ -156,31 +159,31 @@ theorem codec_splitDetached_header_decoded (msg hb : Bytes) (h : SigHeader) (d :
 
 theorem readEnc_header (msg hb : Bytes) (h : EncHeader) (ps : PStream EncBlock)
     (hrd : Front.readEnc msg = .ok (.ok hb h, ps)) : FrontEncHeader hb h := by
-  rcases orCodec_ok hrd with hw | ⟨_, _, hc⟩
-  · exact Or.inl (split_header_decoded _ _ msg hb h ps hw)
-  · exact Or.inr (codec_split_header_decoded _ _ msg hb h ps hc)
+  rcases orWire_ok hrd with hc | ⟨_, _, hw⟩
+  · obtain ⟨ps0, hc0, _, _⟩ := settle_ok hc
+    exact Or.inl (codec_split_header_decoded _ _ msg hb h ps0 hc0)
+  · exact Or.inr (split_header_decoded _ _ msg hb h ps hw)
 
 theorem readSigncrypt_header (msg hb : Bytes) (h : EncHeader) (ps : PStream SigncryptBlock)
     (hrd : Front.readSigncrypt msg = .ok (.ok hb h, ps)) : FrontEncHeader hb h := by
-  rcases orCodec_ok hrd with hw | ⟨_, _, hc⟩
-  · exact Or.inl (split_header_decoded _ _ msg hb h ps hw)
-  · exact Or.inr (codec_split_header_decoded _ _ msg hb h ps hc)
+  rcases orWire_ok hrd with hc | ⟨_, _, hw⟩
+  · obtain ⟨ps0, hc0, _, _⟩ := settle_ok hc
+    exact Or.inl (codec_split_header_decoded _ _ msg hb h ps0 hc0)
+  · exact Or.inr (split_header_decoded _ _ msg hb h ps hw)
 
 theorem readSig_header (msg hb : Bytes) (h : SigHeader) (ps : PStream SigBlock)
     (hrd : Front.readSig msg = .ok (.ok hb h, ps)) : FrontSigHeader hb h := by
-  rcases orCodec_ok hrd with hw | ⟨_, _, hc⟩
-  · exact Or.inl (split_header_decoded _ _ msg hb h ps hw)
-  · exact Or.inr (codec_split_header_decoded _ _ msg hb h ps hc)
+  rcases orWire_ok hrd with hc | ⟨_, _, hw⟩
+  · obtain ⟨ps0, hc0, _, _⟩ := settle_ok hc
+    exact Or.inl (codec_split_header_decoded _ _ msg hb h ps0 hc0)
+  · exact Or.inr (split_header_decoded _ _ msg hb h ps hw)
 
 theorem readDetached_header (sigMsg hb : Bytes) (h : SigHeader) (sr : Sign.SigRead)
     (hrd : Front.readDetached sigMsg = .ok (.ok hb h, sr)) : FrontSigHeader hb h := by
-  rcases orCodec_ok hrd with hw | ⟨_, _, hc⟩
-  · exact Or.inl (splitDetached_header_decoded sigMsg hb h sr hw)
-  · split at hc
-    · rename_i hr d hsd
-      cases hc
-      exact Or.inr (codec_splitDetached_header_decoded sigMsg hb h d hsd)
-    · cases hc
+  rcases orWire_ok hrd with hc | ⟨_, _, hw⟩
+  · obtain ⟨d, hsd, _⟩ := codecDetached_ok hc
+    exact Or.inl (codec_splitDetached_header_decoded sigMsg hb h d hsd)
+  · exact Or.inr (splitDetached_header_decoded sigMsg hb h sr hw)
 
 /-! ## C. go-codec's typed decode of canonical header bytes keeps mode and version -/
 
@@ -344,21 +347,21 @@ theorem decSigHeader_tag (hb : Bytes) (m : Int) (ver : Version) (hc : CanonHeade
     canonical header bytes carries the mode and version those bytes announce -/
 theorem frontEncHeader_tag (hb : Bytes) (m : Int) (ver : Version) (hc : CanonHeaderBytes hb m ver)
     (h' : EncHeader) (hf : FrontEncHeader hb h') : (h'.typ, h'.version) = (m, ver) := by
-  rcases hf with hw | ⟨r, hd⟩
+  rcases hf with ⟨r, hd⟩ | hw
+  · obtain ⟨a, b⟩ := decEncHeader_tag hb m ver hc h' r hd
+    rw [a, b]
   · have ht := (decodeHeader_enc_tag _ _ _ hw).2
     rw [canonHeaderBytes_tag hc] at ht
     exact (Option.some.inj ht).symm
-  · obtain ⟨a, b⟩ := decEncHeader_tag hb m ver hc h' r hd
-    rw [a, b]
 
 theorem frontSigHeader_tag (hb : Bytes) (m : Int) (ver : Version) (hc : CanonHeaderBytes hb m ver)
     (h' : SigHeader) (hf : FrontSigHeader hb h') : (h'.typ, h'.version) = (m, ver) := by
-  rcases hf with hw | ⟨r, hd⟩
+  rcases hf with ⟨r, hd⟩ | hw
+  · obtain ⟨a, b⟩ := decSigHeader_tag hb m ver hc h' r hd
+    rw [a, b]
   · have ht := (decodeHeader_sig_tag _ _ _ hw).2
     rw [canonHeaderBytes_tag hc] at ht
     exact (Option.some.inj ht).symm
-  · obtain ⟨a, b⟩ := decSigHeader_tag hb m ver hc h' r hd
-    rw [a, b]
 
 /-! ### honest senders write canonical header bytes -/
 
@@ -387,11 +390,10 @@ theorem decrypt_no_transplant_bytes (P : Prims) (valid : Validator) (kr : Keyrin
     (hread : Front.readEnc msg' = .ok (.ok hb' h', ps)) (r : Decrypt.Result)
     (hopen : Decrypt.openBytes P valid kr msg' = .ok r) (hacc : r.released ≠ [] ∨ r.err = none)
     (hother : m ≠ mtEncryption ∨ valid ver = false) :
-    hb' ≠ hb ∧ (P.hash hb' ≠ P.hash hb ∨ (hb' ≠ hb ∧ P.hash hb' = P.hash hb)) := by
+    hb' ≠ hb := by
   rw [dec_openBytes_of_read hread] at hopen
   cases hopen
   obtain ⟨_, hv, ht⟩ := enc_gate_released P valid kr hb' h' ps hacc
-  apply ne_hash_or_collision
   intro e
   subst e
   have htag := frontEncHeader_tag hb' m ver hhon h' (readEnc_header msg' hb' h' ps hread)
@@ -406,11 +408,10 @@ theorem signcrypt_no_transplant_bytes (P : Prims) (kr : Keyring) (res : Signcryp
     (hread : Front.readSigncrypt msg' = .ok (.ok hb' h', ps)) (r : Signcrypt.Result)
     (hopen : Signcrypt.openBytes P kr res msg' = .ok r) (hacc : r.released ≠ [] ∨ r.err = none)
     (hother : m ≠ mtSigncryption ∨ ver.major ≠ 2) :
-    hb' ≠ hb ∧ (P.hash hb' ≠ P.hash hb ∨ (hb' ≠ hb ∧ P.hash hb' = P.hash hb)) := by
+    hb' ≠ hb := by
   rw [sc_openBytes_of_read hread] at hopen
   cases hopen
   obtain ⟨_, hv, ht⟩ := sc_gate_released P kr res hb' h' ps hacc
-  apply ne_hash_or_collision
   intro e
   subst e
   have htag := frontEncHeader_tag hb' m ver hhon h' (readSigncrypt_header msg' hb' h' ps hread)
@@ -434,11 +435,10 @@ theorem verify_no_transplant_bytes (P : Prims) (valid : Validator) (kr : Keyring
     (hread : Front.readSig msg' = .ok (.ok hb' h', ps)) (r : Sign.Result)
     (hopen : Sign.verifyBytes P valid kr msg' = .ok r) (hacc : r.released ≠ [] ∨ r.err = none)
     (hother : m ≠ mtAttached ∨ valid ver = false) :
-    hb' ≠ hb ∧ (P.hash hb' ≠ P.hash hb ∨ (hb' ≠ hb ∧ P.hash hb' = P.hash hb)) := by
+    hb' ≠ hb := by
   rw [sig_verifyBytes_of_read hread] at hopen
   cases hopen
   obtain ⟨_, hv, ht⟩ := ver_gate_any P valid kr hb' h' ps hacc
-  apply ne_hash_or_collision
   intro e
   subst e
   have htag := frontSigHeader_tag hb' m ver hhon h' (readSig_header msg' hb' h' ps hread)
@@ -453,14 +453,13 @@ theorem detached_no_transplant_bytes (P : Prims) (valid : Validator) (kr : Keyri
     (hread : Front.readDetached sigMsg' = .ok (.ok hb' h', sr)) (msg k : Bytes)
     (hopen : Sign.verifyDetachedBytes P valid kr sigMsg' msg = .ok (.ok k))
     (hother : m ≠ mtDetached ∨ valid ver = false) :
-    hb' ≠ hb ∧ (P.hash hb' ≠ P.hash hb ∨ (hb' ≠ hb ∧ P.hash hb' = P.hash hb)) := by
+    hb' ≠ hb := by
   rw [sig_verifyDetachedBytes_of_read hread] at hopen
   have hacc : Sign.verifyDetached P valid kr (.ok hb' h') sr msg = .ok k := by
     injection hopen
   obtain ⟨hb2, h2, sg, hhr, _, _, hv, ht, _⟩ := detached_sound P valid kr _ sr msg k hacc
   injection hhr with e1 e2
   subst e1 e2
-  apply ne_hash_or_collision
   intro e
   subst e
   have htag := frontSigHeader_tag hb' m ver hhon h' (readDetached_header sigMsg' hb' h' sr hread)
@@ -468,6 +467,87 @@ theorem detached_no_transplant_bytes (P : Prims) (valid : Validator) (kr : Keyri
   rcases hother with ho | ho
   · exact ho (e1.symm.trans ht)
   · rw [← e2, hv] at ho; cases ho
+
+/-! ### behind a foreign header nothing is accepted -/
+
+theorem decrypt_foreign_header_refused (P : Prims) (valid : Validator) (kr : Keyring)
+    (hb : Bytes) (m : Int) (ver : Version) (hhon : CanonHeaderBytes hb m ver)
+    (msg' : Bytes) (h' : EncHeader) (ps : PStream EncBlock)
+    (hread : Front.readEnc msg' = .ok (.ok hb h', ps)) (hother : m ≠ mtEncryption ∨ valid ver = false) :
+    ∃ e, Decrypt.openBytes P valid kr msg' = .ok ⟨none, [], some e, []⟩ ∧
+      (e = .notASaltpackMessage ∨ e = .wrongMessageType ∨ e = .badVersion) := by
+  have htag := frontEncHeader_tag hb m ver hhon h' (readEnc_header msg' hb h' ps hread)
+  injection htag with e1 e2
+  obtain ⟨a, b, c⟩ := dec_validate_error valid h'
+  rw [dec_openBytes_of_read hread]
+  by_cases hf : h'.formatName = Gen.c_sp_FormatName
+  · by_cases ht : h'.typ = mtEncryption
+    · rcases hother with ho | ho
+      · exact (ho (e1.symm.trans ht)).elim
+      · exact ⟨_, by rw [dec_openStream_refused P valid kr hb h' ps _ (c hf ht (e2 ▸ ho))], Or.inr (Or.inr rfl)⟩
+    · exact ⟨_, by rw [dec_openStream_refused P valid kr hb h' ps _ (b hf ht)], Or.inr (Or.inl rfl)⟩
+  · exact ⟨_, by rw [dec_openStream_refused P valid kr hb h' ps _ (a hf)], Or.inl rfl⟩
+
+theorem signcrypt_foreign_header_refused (P : Prims) (kr : Keyring) (res : Signcrypt.Resolver)
+    (hb : Bytes) (m : Int) (ver : Version) (hhon : CanonHeaderBytes hb m ver)
+    (msg' : Bytes) (h' : EncHeader) (ps : PStream SigncryptBlock)
+    (hread : Front.readSigncrypt msg' = .ok (.ok hb h', ps)) (hother : m ≠ mtSigncryption ∨ ver.major ≠ 2) :
+    ∃ e, Signcrypt.openBytes P kr res msg' = .ok ⟨none, [], some e, []⟩ ∧
+      (e = .notASaltpackMessage ∨ e = .wrongMessageType ∨ e = .badVersion) := by
+  have htag := frontEncHeader_tag hb m ver hhon h' (readSigncrypt_header msg' hb h' ps hread)
+  injection htag with e1 e2
+  obtain ⟨a, b, c⟩ := sc_validate_error h'
+  rw [sc_openBytes_of_read hread]
+  by_cases hf : h'.formatName = Gen.c_sp_FormatName
+  · by_cases ht : h'.typ = mtSigncryption
+    · rcases hother with ho | ho
+      · exact (ho (e1.symm.trans ht)).elim
+      · exact ⟨_, by rw [sc_openStream_refused P kr res hb h' ps _ (c hf ht (e2 ▸ ho))], Or.inr (Or.inr rfl)⟩
+    · exact ⟨_, by rw [sc_openStream_refused P kr res hb h' ps _ (b hf ht)], Or.inr (Or.inl rfl)⟩
+  · exact ⟨_, by rw [sc_openStream_refused P kr res hb h' ps _ (a hf)], Or.inl rfl⟩
+
+theorem verify_foreign_header_refused (P : Prims) (valid : Validator) (kr : Keyring)
+    (hb : Bytes) (m : Int) (ver : Version) (hhon : CanonHeaderBytes hb m ver)
+    (msg' : Bytes) (h' : SigHeader) (ps : PStream SigBlock)
+    (hread : Front.readSig msg' = .ok (.ok hb h', ps)) (hother : m ≠ mtAttached ∨ valid ver = false) :
+    ∃ e, Sign.verifyBytes P valid kr msg' = .ok ⟨none, [], some e⟩ ∧
+      (e = .notASaltpackMessage ∨ e = .wrongMessageType ∨ e = .badVersion) := by
+  have htag := frontSigHeader_tag hb m ver hhon h' (readSig_header msg' hb h' ps hread)
+  injection htag with e1 e2
+  obtain ⟨a, b, c⟩ := sig_validate_error valid h' mtAttached
+  rw [sig_verifyBytes_of_read hread]
+  by_cases hf : h'.formatName = Gen.c_sp_FormatName
+  · cases hv : valid h'.version with
+    | false => exact ⟨_, by rw [ver_verifyStream_refused P valid kr hb h' ps _ (b hf hv)], Or.inr (Or.inr rfl)⟩
+    | true =>
+      by_cases ht : h'.typ = mtAttached
+      · rcases hother with ho | ho
+        · exact (ho (e1.symm.trans ht)).elim
+        · rw [← e2, hv] at ho; cases ho
+      · exact ⟨_, by rw [ver_verifyStream_refused P valid kr hb h' ps _ (c hf hv ht)], Or.inr (Or.inl rfl)⟩
+  · exact ⟨_, by rw [ver_verifyStream_refused P valid kr hb h' ps _ (a hf)], Or.inl rfl⟩
+
+theorem detached_foreign_header_refused (P : Prims) (valid : Validator) (kr : Keyring)
+    (hb : Bytes) (m : Int) (ver : Version) (hhon : CanonHeaderBytes hb m ver)
+    (sigMsg' : Bytes) (h' : SigHeader) (sr : Sign.SigRead)
+    (hread : Front.readDetached sigMsg' = .ok (.ok hb h', sr)) (msg : Bytes)
+    (hother : m ≠ mtDetached ∨ valid ver = false) :
+    ∃ e, Sign.verifyDetachedBytes P valid kr sigMsg' msg = .ok (.error e) ∧
+      (e = .notASaltpackMessage ∨ e = .wrongMessageType ∨ e = .badVersion) := by
+  have htag := frontSigHeader_tag hb m ver hhon h' (readDetached_header sigMsg' hb h' sr hread)
+  injection htag with e1 e2
+  obtain ⟨a, b, c⟩ := sig_validate_error valid h' mtDetached
+  rw [sig_verifyDetachedBytes_of_read hread]
+  by_cases hf : h'.formatName = Gen.c_sp_FormatName
+  · cases hv : valid h'.version with
+    | false => exact ⟨_, by rw [det_verifyDetached_refused P valid kr hb h' sr msg _ (b hf hv)], Or.inr (Or.inr rfl)⟩
+    | true =>
+      by_cases ht : h'.typ = mtDetached
+      · rcases hother with ho | ho
+        · exact (ho (e1.symm.trans ht)).elim
+        · rw [← e2, hv] at ho; cases ho
+      · exact ⟨_, by rw [det_verifyDetached_refused P valid kr hb h' sr msg _ (c hf hv ht)], Or.inr (Or.inl rfl)⟩
+  · exact ⟨_, by rw [det_verifyDetached_refused P valid kr hb h' sr msg _ (a hf)], Or.inl rfl⟩
 
 /-! ### the gates themselves, for every byte string -/
 
